@@ -41,6 +41,12 @@ use crate::simfs::SimFs;
 
 type Fail = (String, String);
 
+/// path of the model driver (set by `run`); `none` = no model comparison
+pub static DRV_PATH: std::sync::OnceLock<String> = std::sync::OnceLock::new();
+/// model disagreements found by scenarios (drift, not violations)
+pub static DRIFT: parking_lot::Mutex<Vec<String>> = parking_lot::Mutex::new(Vec::new());
+pub static MODEL_REQUESTS: std::sync::atomic::AtomicU64 = std::sync::atomic::AtomicU64::new(0);
+
 fn open(cfg: &Cfg, fs: &SimFs) -> Result<Arc<DB>, Fail> {
     DB::open(cfg.options(fs)).map(Arc::new).map_err(|e| ("c05:open-failed".to_string(), e.to_string()))
 }
@@ -258,6 +264,23 @@ fn batch_parked(seed: u64) -> Vec<Fail> {
         }
     };
     check("while the batch is in flight", &old, None, &mut fails);
+    // tie to the protocol model: the hook points the writer has passed, the published sequence
+    // number and the number of batch entries already in the memtable, against the model's state
+    if let Some(path) = DRV_PATH.get() {
+        if path != "none" {
+            let passed: Vec<String> = sched::trace().into_iter().filter(|(r, _)| r == "writer").map(|(_, p)| p).collect();
+            let st = db.verif_state();
+            let base = st.last_sequence; // unpublished while parked
+            let inmem = st.mem.iter().filter(|e| e.1 > base).count();
+            let mut drv = crate::drv::Drv::spawn(path);
+            let ans = drv.ask(&format!("proto.write {} {} {}", base, nkeys, passed.len()));
+            MODEL_REQUESTS.fetch_add(1, Ordering::SeqCst);
+            let want = format!("{} lastSeq={} inmem={} visible=0", passed.join(","), base, inmem);
+            if ans != want {
+                DRIFT.lock().push(format!("writer parked at {point}#{occ}: implementation shows [{want}], the protocol model predicts [{ans}] :: c05 scenario=batch-parked seed={seed}"));
+            }
+        }
+    }
     let snap = db.get_snapshot();
     gate.release();
     match writer.join() {
@@ -561,8 +584,9 @@ pub fn rule() -> &'static str {
     "directed schedules forced through the scheduling hooks of the real code (a get parked after releasing the mutex / before reading tables while rotation, flush, compaction and file deletion complete; a multi-key batch writer parked before the WAL append, after it, after every single memtable insertion and after all of them while readers get, scan and take snapshots; a group-commit leader parked while followers queue; the background thread parked while building a table, before the manifest write, before deleting files and inside the compaction loop while clients read and write) over seeds that draw configuration, key kinds, placement of the key (memtable / table / both), fill volume and occurrence; plus unscheduled stress with 3-8 threads and a per-key register linearizability check. Non-trivial = the scenario reached its park point (or, for stress, ran to completion); distinct by (scenario, seed)."
 }
 
-pub fn run(tier: &str, seed: u64, replay: Option<&str>, shard: Option<ShardArgs>, only: Option<&str>) -> Report {
+pub fn run(tier: &str, seed: u64, replay: Option<&str>, shard: Option<ShardArgs>, only: Option<&str>, drv_path: &str) -> Report {
     crate::lsm::install_panic_hook();
+    let _ = DRV_PATH.set(drv_path.to_string());
     sched::init();
     let mut rep = Report::new("c05", rule());
     let thorough = tier == "thorough";
@@ -625,5 +649,10 @@ pub fn run(tier: &str, seed: u64, replay: Option<&str>, shard: Option<ShardArgs>
             run_one(name, *f, s, &mut rep);
         }
     }
+    for d in DRIFT.lock().drain(..) {
+        rep.drift.push(d);
+        rep.count("model_drift");
+    }
+    rep.model_requests = MODEL_REQUESTS.load(Ordering::SeqCst);
     rep
 }
